@@ -103,7 +103,9 @@ impl ConstraintSet {
                         .apply(&new_substitution)
                         .map_err(ConstraintSolverError::SubstitutionError)?;
 
-                    substitution.extend(new_substitution);
+                    substitution
+                        .extend(new_substitution)
+                        .map_err(ConstraintSolverError::SubstitutionError)?;
 
                     made_progress = true;
                     break;
